@@ -281,7 +281,8 @@ func (ps paramSingle) Build(c containerStore) (reflect.Value, error) {
 		if ps.Optional {
 			return reflect.Zero(ps.Type), nil
 		}
-		return _noValue, newErrMissingTypes(c, key{name: ps.Name, t: ps.Type})
+		missing := newErrMissingTypes(c, key{name: ps.Name, t: ps.Type})
+		return _noValue, &missing
 	}
 
 	for _, n := range providers {
